@@ -479,18 +479,19 @@ impl std::fmt::Debug for Zp {
     }
 }
 
-pub const N_ZST: usize = 23;
+pub const N_ZST: usize = 24;
 fn run_zst(k: usize) -> Vec<String> {
     use std::sync::atomic::Ordering::SeqCst;
     use triomphe::{ArcUnion, OffsetArc};
     use unsize::{CoerceUnsize, Coercion};
     // expected number of values created (the original and each clone the path must make), where the path fixes it
-    let want_made: [usize; 23] = [1, 1, 1, 1, 1, 1, 2, 2, 2, 1, 1, 1, 1, 1, 1, 1, 1, 1, 1, 1, 2, 1, 0];
+    let want_made: [usize; 24] = [1, 1, 1, 1, 1, 1, 2, 2, 2, 1, 1, 1, 1, 1, 1, 1, 1, 1, 1, 1, 2, 1, 0, 3];
     let names = ["new / drop", "clone / drop both", "try_unwrap (sole owner)", "try_unwrap (shared)", "UniqueArc::into_inner", "unwrap_or_clone (sole owner)",
                  "unwrap_or_clone (shared)", "make_mut (shared)", "make_unique (shared)", "from Box", "Default", "OffsetArc round trip and clone_arc",
                  "ArcUnion second variant, clone", "unsized to dyn Debug", "new_uninit / write / assume_init", "into_raw / from_raw, borrow_arc().clone_arc()", "get_mut on a shared handle", "try_unique on a shared handle",
                  "is_unique shared / sole", "get_mut and try_unique on a sole owner", "OffsetArc::make_mut (shared)", "deprecated Arc::write on a shared handle",
-                 "(zero-sized ELEMENTS) a header-slice of more than isize::MAX unit elements, fat -> thin -> fat -> thin"];
+                 "(zero-sized ELEMENTS) a header-slice of more than isize::MAX unit elements, fat -> thin -> fat -> thin",
+                 "(zero-sized ELEMENTS) new_uninit_slice of a zero-sized type: UniqueArc and Arc, written, assumed initialised"];
     let tag = format!("zero-sized payload with a destructor through: {}", names[(k - 1) % names.len()]);
     alloc::reset();
     ev::LOG.clear();
@@ -643,6 +644,21 @@ fn run_zst(k: usize) -> Vec<String> {
                 drop(t);
             }
         }
+        24 => {
+            let mut u = UniqueArc::<[std::mem::MaybeUninit<Zp>]>::new_uninit_slice(3);
+            if u.len() != 3 {
+                gate.borrow_mut().push("new_uninit_slice of a zero-sized type does not have the length asked for");
+            }
+            for i in 0..3 {
+                u[i].write(Zp::mk());
+            }
+            drop(unsafe { UniqueArc::assume_init_slice(u) });
+            let a = Arc::<[std::mem::MaybeUninit<Zp>]>::new_uninit_slice(0);
+            if a.len() != 0 {
+                gate.borrow_mut().push("Arc::new_uninit_slice(0) of a zero-sized type is not empty");
+            }
+            drop(a);
+        }
         _ => {
             #[allow(deprecated)]
             {
@@ -664,7 +680,7 @@ fn run_zst(k: usize) -> Vec<String> {
         errs.push(format!("[panicked] {}: the path panicked", tag));
     }
     for g in gate.borrow().iter() {
-        errs.push(format!("[{}] {}: {}", if k == 23 { "thin" } else { "verdict" }, tag, g));
+        errs.push(format!("[{}] {}: {}", if k == 23 { "thin" } else if k == 24 { "contents" } else { "verdict" }, tag, g));
     }
     let (made, drops) = (ZP_MADE.load(SeqCst), ZP_DROPS.load(SeqCst));
     if made != want_made[(k - 1) % want_made.len()] {
